@@ -13,7 +13,7 @@
      mandatory one; cut short where s was dropped; complete (up to the last message sent before a failure) if s is alive at
      the end of the drained history.   "Once" and "in order" are part of the equation.
    Sharing, at the end of a drained history: the subscription table has exactly one entry per rule that still has a live
-   stream, its reference count is the number of those streams, and msg_senders has an entry for exactly those rules. *)
+   stream, its reference count is the number of those streams (a stream and its clones counting once), and msg_senders has an entry for exactly those rules. *)
 From ZV Require Import Base.Bytes Base.Res.
 
 (* ---- the case ---- *)
@@ -179,7 +179,7 @@ Fixpoint count_yields_before (s : nat) (n : nat) (l : list atom) : nat :=
 
 (* a stream: id, rule, the position at which it (or the stream it was cloned from) subscribed, how many messages its
    ancestors had already taken when it was cloned off *)
-Record sinfo := { si_id : nat; si_rule : option nat; si_c : nat; si_skip : nat }.
+Record sinfo := { si_id : nat; si_rule : option nat; si_c : nat; si_skip : nat; si_root : nat }.   (* root: the stream it descends from by cloning *)
 
 Definition stream_ok (rules : list rspec) (l : list atom) (tbl : list (nat * nat * option nat)) (ms : list (nat * mkind))
                      (si : sinfo) : bytes :=
@@ -204,12 +204,12 @@ Fixpoint creations (all : list atom) (l : list atom) (n : nat) (known : list sin
   match l with
   | [] => []
   | TCreate s r :: rest =>
-      let si := {| si_id := s; si_rule := r; si_c := n; si_skip := 0 |} in si :: creations all rest (S n) (si :: known)
+      let si := {| si_id := s; si_rule := r; si_c := n; si_skip := 0; si_root := s |} in si :: creations all rest (S n) (si :: known)
   | TCloneOf s s2 :: rest =>
       match find (fun x => Nat.eqb (si_id x) s) known with
       | Some x =>
           let si := {| si_id := s2; si_rule := si_rule x; si_c := si_c x;
-                       si_skip := si_skip x + count_yields_before s n all |} in
+                       si_skip := si_skip x + count_yields_before s n all; si_root := si_root x |} in
           si :: creations all rest (S n) (si :: known)
       | None => creations all rest (S n) known
       end
@@ -223,18 +223,26 @@ Definition count_live (l : list atom) (cr : list sinfo) (canon : nat -> nat) (j 
                            | None => false
                            end) cr).
 
+(* a stream and its clones share ONE reference (fix 3c4a83a4): the families with a live member *)
+Fixpoint nodup_nat (l : list nat) : list nat :=
+  match l with [] => [] | x :: r => if existsb (Nat.eqb x) r then nodup_nat r else x :: nodup_nat r end.
+Definition count_families (l : list atom) (cr : list sinfo) (canon : nat -> nat) (j : nat) : nat :=
+  length (nodup_nat (map si_root (filter (fun x => match si_rule x with
+                           | Some j' => Nat.eqb (canon j') j && match index_where (is_gone (si_id x)) 0 l with None => true | Some _ => false end
+                           | None => false
+                           end) cr))).
+
 Definition table_ok (nrules : nat) (l : list atom) (cr : list sinfo) (canon : nat -> nat) (failed : bool) (last : snap) : bytes :=
-  let has_clone := existsb (fun a => match a with TCloneOf _ _ => true | _ => false end) l in
   match sn_subs last with
   | None => B "subscriptions-still-locked-at-the-end"
   | Some subs =>
       let want j := count_live l cr canon j in
       let ok_entry (e : nat * nat * cinfo) :=
         negb (Nat.eqb (want (fst (fst e))) 0) && negb (Nat.eqb (snd (fst e)) 0) &&
-        (has_clone || Nat.eqb (snd (fst e)) (want (fst (fst e)))) in
+        Nat.eqb (snd (fst e)) (count_families l cr canon (fst (fst e))) in
       let all_present := forallb (fun j => Nat.eqb (want j) 0 || negb (Nat.eqb (canon j) j) ||
                                           existsb (fun e => Nat.eqb (fst (fst e)) j) subs) (seq 0 nrules) in
-      if negb (forallb ok_entry subs) then B "a-subscription-without-live-stream-or-a-reference-count-that-is-not-the-number-of-live-streams"
+      if negb (forallb ok_entry subs) then B "a-subscription-without-live-stream-or-a-reference-count-that-is-not-the-number-of-live-stream-families"
       else if negb all_present then B "a-rule-with-a-live-stream-has-no-subscription"
       else match sn_senders last with
            | None => B "msg_senders-still-locked-at-the-end"
